@@ -320,6 +320,12 @@ fn norm_lone_commas(t: &[Tok]) -> Option<Vec<Tok>> {
 			i += 2;
 			continue;
 		}
+		// `local , ; x`: a lone comma as the whole binding list (the legacy grammar's `x ** comma() comma()?`)
+		if cur == "local" && next == "," && t.get(i + 2).is_some_and(|n| n.1 == ";") {
+			changed = true;
+			i += 3;
+			continue;
+		}
 		out.push(t[i].clone());
 		i += 1;
 	}
